@@ -6,29 +6,72 @@
     position), and [spec_lookup d path m]: scan the expressions of [d] matching
     [path] from the most specific one on; at an expression the first value (in
     insertion order) whose conditions [m] hold is the answer; if none holds, go on
-    only if that expression's backtracking flag is set.
+    only if that expression's backtracking flag is set.  The flag of an expression, as the
+    property states it, is the conjunction of the backtracking_enabled of its rules
+    ([respec vflag]); the index keeps the flag of the last Add (open finding C02-F2).
     Search (Radix/Machine.v): [find_in false] = findNode as it is (since fix e897fef),
     [find_in true] = the pinned tree; [load] = any sequence of Add on the empty index. *)
 From HV Require Import Base.Prelude Radix.Spec Radix.SpecProofs Radix.Machine Radix.MachineProofs
   Radix.Load Radix.LoadProofs Radix.Tree Radix.TreeProofs Radix.TreeAddProofs C02.Model C02.Proofs.
 
-(** ** the search returns what the specification says
+(** * Property theorems
 
-    Since fix e897fef (C02-F1), 88da16a (C03-F2) and 16cf34b (C03-F5) the code of
-    findNode is [find_in false] / [tree_find true true true]; [find_in true] /
-    [tree_find false ..] is the PINNED tree (before those commits). *)
+    The code of findNode / addNode is [tree_find true true true] on [tree_load adds]
+    (Radix/Tree.v, transcription of tree.go after the fix: commits e897fef, 88da16a,
+    16cf34b, 20f92b3); [find_in false] on [load adds] is the pattern-map machine it refines. *)
 
-(** after ANY sequence of Adds (any expressions, order, flags, values constraint),
-    for any path and any conditions (captures included) *)
+(** ** the most specific matching expression selects the rule: after ANY sequence of Adds
+    (any expressions, order, flags, values constraint), for any path and any conditions
+    (captures included), outside finding C02-F2 *)
 Theorem C02_find_is_most_specific :
-  forall (V : Type) (can_add : list V -> V -> bool) (adds : list (addop V)) (path : str) (m : matcher V),
-    find_in false (load can_add adds) path m = spec_lookup (load can_add adds) path m.
-Proof. exact loaded_repaired_find_is_spec. Qed.
+  forall (V : Type) (vflag : V -> bool) (can_add : list V -> V -> bool) (m : matcher V)
+         (adds : list (addop V)) (path : str),
+    guard_F2 vflag (load can_add adds) path m = false ->
+    tree_find true true true m (tree_load V can_add adds) path
+    = spec_lookup (respec vflag (load can_add adds)) path m.
+Proof. exact tree_find_is_spec_F2. Qed.
 Print Assumptions C02_find_is_most_specific.
 
-(** stage 2: the compressed radix tree (Radix/Tree.v: findNode of tree.go with its
-    static / wildcard / catch-all children, transcribed) on ANY tree satisfying the
-    shape invariant [wfb] is the machine's search on the tree's content [abs]
+(** what holds inside the guard as well: the specification with, for every expression, the
+    flag of the rule added last on it *)
+Theorem C02_find_is_most_specific_with_last_flag :
+  forall (V : Type) (can_add : list V -> V -> bool) (m : matcher V) (adds : list (addop V)) (path : str),
+    tree_find true true true m (tree_load V can_add adds) path = spec_lookup (load can_add adds) path m.
+Proof. exact tree_loaded_find_is_spec. Qed.
+Print Assumptions C02_find_is_most_specific_with_last_flag.
+
+(** ... "the flag of the rule added last": when every Add passes its rule's flag (as
+    repository.addRulesTo does), the flag of every loaded expression is the flag of its last
+    value — so the guard fires exactly on failed expressions whose last rule allows
+    backtracking while an earlier one forbids it *)
+Theorem C02_flag_in_force_is_last_add :
+  forall (V : Type) (vflag : V -> bool) (can_add : list V -> V -> bool) (adds : list (addop V)),
+    flags_from_values vflag adds ->
+    Forall (fun e => flag_is_last V vflag (snd e)) (load can_add adds).
+Proof. exact load_flag_last. Qed.
+Print Assumptions C02_flag_in_force_is_last_add.
+
+(** finding C02-F2: the guard is needed and not vacuous *)
+Theorem C02_F2_refuted :
+  exists (l : list (addop nat)) (path : str) (m : matcher nat),
+    flags_from_values F2_vflag l /\ guard_F2 F2_vflag (load ex_any l) path m = true /\
+    tree_find true true true m (tree_load nat ex_any l) path
+    <> spec_lookup (respec F2_vflag (load ex_any l)) path m.
+Proof. exact F2_refuted. Qed.
+Print Assumptions C02_F2_refuted.
+
+(** finding C02-F3 (rule order after UpdateRuleSet; histories are modelled at machine level in
+    C02/Model.v [hstep] and compared with the real repository in stream "history"; the general
+    statement about histories is C06's) *)
+Theorem C02_F3_refuted :
+  exists (ops : list hop) (path : str) (m : matcher rval),
+    guard_F3 (hist_db ops) (fresh_db ops) path = true /\
+    find_rule false (hist_db ops) false path m <> spec_find_rule (fresh_db ops) false path m.
+Proof. exact F3_refuted. Qed.
+Print Assumptions C02_F3_refuted.
+
+(** ** stage 2, the two refinements behind the theorems above: findNode on ANY tree
+    satisfying the shape invariant [wfb] is the machine's search on the tree's content
     ([fx] = C02-F1/C03-F2 switch; captures included) ... *)
 Theorem C02_tree_refines_machine :
   forall (V : Type) (m : matcher V) (fx : bool) (t : tree V) (path : str),
@@ -39,7 +82,7 @@ Print Assumptions C02_tree_refines_machine.
 
 (** ... and the tree built by ANY sequence of Adds through the transcribed addNode /
     splitCommonPrefix / Add satisfies [wfb] and holds exactly the entries of the
-    machine's index ... *)
+    machine's index (a rejected Add leaves both unchanged) *)
 Theorem C02_tree_add_refines_machine :
   forall (V : Type) (can_add : list V -> V -> bool) (adds : list (addop V)),
     wfb (tree_load V can_add adds) = true /\
@@ -47,47 +90,40 @@ Theorem C02_tree_add_refines_machine :
 Proof. exact tree_load_refines. Qed.
 Print Assumptions C02_tree_add_refines_machine.
 
-(** ... hence the compressed tree as tree.go builds and searches it returns the
-    specification's answer: for all Adds, all paths, all conditions *)
-Theorem C02_tree_find_is_most_specific :
-  forall (V : Type) (can_add : list V -> V -> bool) (m : matcher V) (adds : list (addop V)) (path : str),
-    tree_find true true true m (tree_load V can_add adds) path = spec_lookup (load can_add adds) path m.
-Proof. exact tree_loaded_find_is_spec. Qed.
-Print Assumptions C02_tree_find_is_most_specific.
+(** ** the repository (AddRuleSet = clone, add every route, swap only on success; FindRule)
+    on the compressed tree, after any sequence of rule sets: the rule the specification
+    selects among what was loaded, else the default rule, else "no rule" *)
+Theorem C02_repository_find_rule :
+  forall (vflag : rval -> bool) (sets : list (nat * list rule_def)) (dflt : bool) (path : str) (m : matcher rval),
+    guard_F2 vflag (load_rulesets [] sets) path m = false ->
+    match spec_lookup (respec vflag (load_rulesets [] sets)) path m with
+    | Found v _ _ => tree_find_rule (tree_load_rulesets empty_tree sets) dflt path m = ORule (fst v)
+    | NoMatch => tree_find_rule (tree_load_rulesets empty_tree sets) dflt path m
+                 = if dflt then ODefault else ONoRule
+    end.
+Proof. exact tree_find_rule_is_spec_F2. Qed.
+Print Assumptions C02_repository_find_rule.
 
-(** *** the pinned behaviour (finding C02-F1, fixed by e897fef) *)
+(** ** "segment by segment a literal beats a single wildcard, which beats a free wildcard":
+    between two expressions matching one path the order is decided by the kinds of the first
+    differing tokens — the tie-breaks that make [pat_cmp] total (byte order between
+    literals, length) never decide *)
+Theorem C02_ties_never_decide :
+  forall (p q : pat) (s : str),
+    matchesb p s = true -> matchesb q s = true -> kind_cmp p q = Some (pat_cmp p q).
+Proof. exact ties_never_decide. Qed.
+Print Assumptions C02_ties_never_decide.
 
-(** before the fix the theorem held only outside the guard and for conditions that
-    do not look at captures ... *)
-Theorem C02_pinned_find_is_most_specific :
-  forall (V : Type) (can_add : list V -> V -> bool) (adds : list (addop V)) (path : str) (m : matcher V),
-    cond_only m -> guard_F1 (load can_add adds) path m = false ->
-    find_in true (load can_add adds) path m = spec_lookup (load can_add adds) path m.
-Proof. exact loaded_find_is_spec. Qed.
-Print Assumptions C02_pinned_find_is_most_specific.
-
-Theorem C02_pinned_tree_find_is_most_specific :
-  forall (V : Type) (m : matcher V) (t : tree V) (path : str),
-    cond_only m -> wfb t = true -> guard_F1 (abs t) path m = false ->
-    found_strip V (tree_find false false false m t path) = found_strip V (spec_lookup (abs t) path m).
-Proof. exact tree_find_is_spec_guarded. Qed.
-Print Assumptions C02_pinned_tree_find_is_most_specific.
-
-(** ... and failed inside it:  /foo/**  without backtracking still fell back to  /**  *)
-Theorem C02_F1_pinned_refuted :
-  exists (l : list (addop nat)) (path : str) (m : matcher nat),
-    cond_only m /\ guard_F1 (load ex_any l) path m = true /\
-    find_in true (load ex_any l) path m <> spec_lookup (load ex_any l) path m.
-Proof. exact F1_refuted. Qed.
-Print Assumptions C02_F1_pinned_refuted.
-
-(** non-vacuity: concrete lookups with several candidates, with and without backtracking *)
+(** non-vacuity: the hypotheses of [C02_find_is_most_specific] hold on an index where the
+    lookups go through three / two candidates, with and without backtracking *)
 Theorem C02_nonvacuous :
-  find_in false (load ex_any NV_adds) (ex_str "/foo/bar") (ex_only [2]) = NoMatch /\
-  find_in false (load ex_any NV_adds) (ex_str "/foo/bar/baz") (ex_only [2])
-  = Found 2 [ex_str "*"] [ex_str "foo/bar/baz"] /\
-  find_in false (load ex_any NV_adds) (ex_str "/foo/bar") (ex_only [1; 2; 3; 4]) = Found 4 [] [].
-Proof. exact nonvacuous_current. Qed.
+  flags_from_values NV_vflag NV_adds /\
+  guard_F2 NV_vflag (load ex_any NV_adds) (ex_str "/foo/bar") (ex_only [2]) = false /\
+  tree_find true true true (ex_only [2]) (tree_load nat ex_any NV_adds) (ex_str "/foo/bar") = NoMatch /\
+  guard_F2 NV_vflag (load ex_any NV_adds) (ex_str "/foo/bar/baz") (ex_only [2]) = false /\
+  tree_find true true true (ex_only [2]) (tree_load nat ex_any NV_adds) (ex_str "/foo/bar/baz")
+  = Found 2 [ex_str "*"] [ex_str "foo/bar/baz"].
+Proof. exact nonvacuous_tree. Qed.
 Print Assumptions C02_nonvacuous.
 
 (** ** independent of the order in which rules and rule sets were loaded:
@@ -102,6 +138,19 @@ Theorem C02_order_independent :
 Proof. exact load_order_independent. Qed.
 Print Assumptions C02_order_independent.
 
+(** ... and of the order in which RULE SETS were loaded: two sequences of the same rule sets
+    (distinct rule-set ids) that are both accepted completely answer every request alike — on
+    the compressed tree, default rule / "no rule" included.  (A rule set that is rejected in one
+    order — it shares an expression with another set — is outside: then the loaded content differs.) *)
+Theorem C02_rulesets_order_independent :
+  forall (sets sets' : list (nat * list rule_def)) (dflt : bool) (path : str) (m : matcher rval),
+    Permutation.Permutation sets sets' -> NoDup (map fst sets) ->
+    all_accepted [] sets = true -> all_accepted [] sets' = true ->
+    tree_find_rule (tree_load_rulesets empty_tree sets) dflt path m
+    = tree_find_rule (tree_load_rulesets empty_tree sets') dflt path m.
+Proof. exact tree_rulesets_order_independent. Qed.
+Print Assumptions C02_rulesets_order_independent.
+
 (** ** what the specification says, sentence by sentence *)
 
 (** the answer is a value of a loaded expression matching the path, acceptable,
@@ -115,37 +164,6 @@ Theorem C02_answer_is_first_acceptable :
         forall x, In x before -> m x ks caps = false.
 Proof. exact spec_lookup_sound. Qed.
 Print Assumptions C02_answer_is_first_acceptable.
-
-(** the most specific matching expression decides: an acceptable value of it wins ... *)
-Theorem C02_most_specific_wins :
-  forall (V : Type) (m : matcher V) (d : db V) (path : str) (p : pat) (n : node V) (caps : list str) (v : V),
-    NoDup (map fst d) -> In (p, n) d -> most_specific_match V d path p ->
-    match_pat p path = Some caps ->
-    find (fun x => m x (keys n) caps) (vals n) = Some v ->
-    spec_lookup d path m = Found v (keys n) caps.
-Proof. exact most_specific_wins. Qed.
-Print Assumptions C02_most_specific_wins.
-
-(** ... without one and without backtracking there is no rule, whatever less
-    specific expressions offer ... *)
-Theorem C02_no_backtracking_stops :
-  forall (V : Type) (m : matcher V) (d : db V) (path : str) (p : pat) (n : node V) (caps : list str),
-    NoDup (map fst d) -> In (p, n) d -> most_specific_match V d path p ->
-    match_pat p path = Some caps -> vals n <> [] ->
-    find (fun x => m x (keys n) caps) (vals n) = None -> flag n = false ->
-    spec_lookup d path m = NoMatch.
-Proof. exact no_backtracking_stops. Qed.
-Print Assumptions C02_no_backtracking_stops.
-
-(** ... with backtracking the lookup goes on with the less specific expressions *)
-Theorem C02_backtracking_continues :
-  forall (V : Type) (m : matcher V) (d : db V) (path : str) (p : pat) (n : node V) (caps : list str),
-    NoDup (map fst d) -> In (p, n) d -> most_specific_match V d path p ->
-    match_pat p path = Some caps ->
-    find (fun x => m x (keys n) caps) (vals n) = None -> flag n = true ->
-    spec_lookup d path m = spec_lookup (without V p d) path m.
-Proof. exact backtracking_continues. Qed.
-Print Assumptions C02_backtracking_continues.
 
 (** [match_pat], used by [spec_lookup], decides the declarative relation *)
 Theorem C02_match_decides_matches :
@@ -195,15 +213,47 @@ Proof.
 Qed.
 Print Assumptions C02_escapes_are_literals.
 
-(** ** the repository (AddRuleSet = clone, add every route, swap only on success; FindRule):
-    on the compressed tree, after any sequence of rule sets, the rule the specification
-    selects among what was loaded, else the default rule, else "no rule" *)
-Theorem C02_repository_find_rule :
-  forall (sets : list (nat * list rule_def)) (dflt : bool) (path : str) (m : matcher rval),
-    tree_find_rule (tree_load_rulesets empty_tree sets) dflt path m
-    = spec_find_rule (load_rulesets [] sets) dflt path m.
-Proof. exact tree_find_rule_is_spec. Qed.
-Print Assumptions C02_repository_find_rule.
+(** * Not counted as property theorems
+
+    Readbacks of [spec_lookup] (they unfold the specification, they say nothing about
+    tree.go), the machine-level forms, and the pinned behaviour of the repaired finding C02-F1. *)
+
+Theorem C02_machine_find_is_most_specific :
+  forall (V : Type) (can_add : list V -> V -> bool) (adds : list (addop V)) (path : str) (m : matcher V),
+    find_in false (load can_add adds) path m = spec_lookup (load can_add adds) path m.
+Proof. exact loaded_repaired_find_is_spec. Qed.
+Print Assumptions C02_machine_find_is_most_specific.
+
+(** the most specific matching expression decides: an acceptable value of it wins ... *)
+Theorem C02_most_specific_wins :
+  forall (V : Type) (m : matcher V) (d : db V) (path : str) (p : pat) (n : node V) (caps : list str) (v : V),
+    NoDup (map fst d) -> In (p, n) d -> most_specific_match V d path p ->
+    match_pat p path = Some caps ->
+    find (fun x => m x (keys n) caps) (vals n) = Some v ->
+    spec_lookup d path m = Found v (keys n) caps.
+Proof. exact most_specific_wins. Qed.
+Print Assumptions C02_most_specific_wins.
+
+(** ... without one and without backtracking there is no rule, whatever less
+    specific expressions offer ... *)
+Theorem C02_no_backtracking_stops :
+  forall (V : Type) (m : matcher V) (d : db V) (path : str) (p : pat) (n : node V) (caps : list str),
+    NoDup (map fst d) -> In (p, n) d -> most_specific_match V d path p ->
+    match_pat p path = Some caps -> vals n <> [] ->
+    find (fun x => m x (keys n) caps) (vals n) = None -> flag n = false ->
+    spec_lookup d path m = NoMatch.
+Proof. exact no_backtracking_stops. Qed.
+Print Assumptions C02_no_backtracking_stops.
+
+(** ... with backtracking the lookup goes on with the less specific expressions *)
+Theorem C02_backtracking_continues :
+  forall (V : Type) (m : matcher V) (d : db V) (path : str) (p : pat) (n : node V) (caps : list str),
+    NoDup (map fst d) -> In (p, n) d -> most_specific_match V d path p ->
+    match_pat p path = Some caps ->
+    find (fun x => m x (keys n) caps) (vals n) = None -> flag n = true ->
+    spec_lookup d path m = spec_lookup (without V p d) path m.
+Proof. exact backtracking_continues. Qed.
+Print Assumptions C02_backtracking_continues.
 
 (** the same at the level of the pattern-map machine (second conjunct: the pinned code,
     guarded), and what [spec_find_rule] means *)
@@ -220,3 +270,29 @@ Theorem C02_default_or_norule :
      end).
 Proof. exact (conj repaired_find_rule_is_spec (conj find_rule_is_spec default_or_norule)). Qed.
 Print Assumptions C02_default_or_norule.
+(** *** the pinned behaviour (finding C02-F1, fixed by e897fef) *)
+
+(** before the fix the theorem held only outside the guard and for conditions that
+    do not look at captures ... *)
+Theorem C02_pinned_find_is_most_specific :
+  forall (V : Type) (can_add : list V -> V -> bool) (adds : list (addop V)) (path : str) (m : matcher V),
+    cond_only m -> guard_F1 (load can_add adds) path m = false ->
+    find_in true (load can_add adds) path m = spec_lookup (load can_add adds) path m.
+Proof. exact loaded_find_is_spec. Qed.
+Print Assumptions C02_pinned_find_is_most_specific.
+
+Theorem C02_pinned_tree_find_is_most_specific :
+  forall (V : Type) (m : matcher V) (t : tree V) (path : str),
+    cond_only m -> wfb t = true -> guard_F1 (abs t) path m = false ->
+    found_strip V (tree_find false false false m t path) = found_strip V (spec_lookup (abs t) path m).
+Proof. exact tree_find_is_spec_guarded. Qed.
+Print Assumptions C02_pinned_tree_find_is_most_specific.
+
+(** ... and failed inside it:  /foo/**  without backtracking still fell back to  /**  *)
+Theorem C02_F1_pinned_refuted :
+  exists (l : list (addop nat)) (path : str) (m : matcher nat),
+    cond_only m /\ guard_F1 (load ex_any l) path m = true /\
+    find_in true (load ex_any l) path m <> spec_lookup (load ex_any l) path m.
+Proof. exact F1_refuted. Qed.
+Print Assumptions C02_F1_pinned_refuted.
+
